@@ -319,17 +319,29 @@ def wire(R, ctx):
     ga = lib.adts.get(GP)
     if not R.require(rid, "anchor:GeneratorParameters", ga is not None and any(v["name"] == "RetainLines" for v in ga["variants"]), "", "enum with a RetainLines variant"):
         return
+    # entry points: the methods of Configuration (stable, used by the worker) when they exist, else those of GeneratorParameters
+    CONF = "frontend::configuration::Configuration"
+    gen_field = [f["name"] for v in (lib.adts[CONF]["variants"] if CONF in lib.adts else []) for f in v["fields"] if GP in f.get("tys", "")]
+
+    def entry(name):
+        f_ = lib.fn("%s::%s" % (CONF, name))
+        if f_ is not None and thir.body_of(f_) and gen_field:
+            return f_, (lambda val: peval.make(lib, CONF, {gen_field[0]: val}))
+        f_ = lib.fn("%s::%s" % (GP, name))
+        return f_, (lambda val: val)
     parsers, gens = {}, {}
     for v in ga["variants"]:
-        val = Enum(GP, v["name"], {f["name"]: 80 for f in v["fields"]})
-        fn = lib.fn(GP + "::build_parser")
+        val0 = Enum(GP, v["name"], {f["name"]: 80 for f in v["fields"]})
+        fn, wrap = entry("build_parser")
+        val = wrap(val0)
         if R.require(rid, "anchor:build_parser", fn is not None, "", "not found"):
             pe = peval.PEval(lib, ctx.an)
             try:
                 parsers[v["name"]] = (pe.call_fn(fn, [val]), pe.unknown_reasons[:2])
             except peval.OutOfFuel:
                 parsers[v["name"]] = (UNKNOWN, ["no termination"])
-        fn2 = lib.fn(GP + "::generate_lua")
+        fn2, wrap2 = entry("generate_lua")
+        val = wrap2(val0)
         if R.require(rid, "anchor:generate_lua", fn2 is not None, "", "not found"):
             made = []
 
@@ -350,11 +362,11 @@ def wire(R, ctx):
         p_ret, why = parsers["RetainLines"]
         others = [p for k, (p, _) in parsers.items() if k != "RetainLines"]
         flags = [f for f, x in (p_ret.fields.items() if isinstance(p_ret, Struct) else []) if x is True and all(isinstance(o, Struct) and o.fields.get(f) is not True for o in others)]
-        fn = lib.fn(GP + "::build_parser")
+        fn = entry("build_parser")[0]
         R.ob(rid, "build_parser|RetainLines->preserve_tokens", bool(flags), ctx.where(fn),
              "the RetainLines parser keeps token data (flag %s)" % flags if flags else "the parser built for RetainLines is %s: no token-preserving flag set %s" % (p_ret, why))
     if "RetainLines" in gens:
-        fn2 = lib.fn(GP + "::generate_lua")
+        fn2 = entry("generate_lua")[0]
         R.ob(rid, "generate_lua|RetainLines->TokenBasedLuaGenerator", gens["RetainLines"] == ["TokenBasedLuaGenerator"], ctx.where(fn2),
              "RetainLines generates with %s" % (gens["RetainLines"] or "no generator this rule could see"))
         R.sample({"generators": gens})
